@@ -817,6 +817,137 @@ Proof.
   intros [IAs _ _] t j H. destruct (A_supp _ _ _ IAs t j H). pose proof (A_range _ _ _ IAs t j). repeat split; try assumption; lia.
 Qed.
 
+(* ------------------------------------------------------------------ completeness of the pairing *)
+(* When no interval is discarded by the minimal length, every simplex of dimension below dim_max ends up in a pair (finite or
+   infinite): it is a recorded death, a recorded birth, a live row or the creator of a live component. *)
+Hypothesis Hok : forall b d, (b < d)%nat -> length_ok cells m b d = true.
+
+Definition covC (ps : list pair) (rows : list (nat * Z)) (comp : list (nat * nat)) (n : nat) : Prop :=
+  forall k, (k < n)%nat -> Z.of_nat (dim_of cells k) < dim_max ->
+    In k (pair_keys ps) \/ In k (map fst rows) \/ In (k, k) comp.
+
+Lemma relabel_keep from to l v c : In (v, c) l -> c <> from -> In (v, c) (relabel from to l).
+Proof.
+  intros H Hne. unfold relabel. apply in_map_iff. exists (v, c). cbn [fst snd].
+  destruct (Nat.eqb_spec c from) as [E|_]; [contradiction|]. split; [reflexivity|exact H].
+Qed.
+Lemma pair_keys_add ps b n : (b < n)%nat -> pair_keys (add_pair cells m b n p ps) = (pair_keys ps ++ [b]) ++ [n].
+Proof.
+  intros Hb. unfold add_pair. rewrite (Hok b n Hb). unfold pair_keys. rewrite flat_map_app. cbn. rewrite <- app_assoc. reflexivity.
+Qed.
+
+Lemma cov_vertex ps rows comp n : covC ps rows comp n -> covC ps rows (comp ++ [(n, n)]) (S n).
+Proof.
+  intros H k Hk Hd. destruct (Nat.eq_dec k n) as [->|Hne].
+  - right. right. apply in_or_app. right. left. reflexivity.
+  - destruct (H k ltac:(lia) Hd) as [A|[A|A]]; [left; exact A|right; left; exact A|right; right; apply in_or_app; left; exact A].
+Qed.
+Lemma cov_merge ps rows comp n dead alive : (dead < n)%nat -> covC ps rows comp n ->
+  covC (add_pair cells m dead n p ps) rows (relabel dead alive comp) (S n).
+Proof.
+  intros Hdn H k Hk Hd. rewrite pair_keys_add by exact Hdn. destruct (Nat.eq_dec k n) as [->|Hne].
+  - left. apply in_or_app. right. left. reflexivity.
+  - destruct (H k ltac:(lia) Hd) as [A|[A|A]].
+    + left. apply in_or_app. left. apply in_or_app. left. exact A.
+    + right. left. exact A.
+    + destruct (Nat.eq_dec k dead) as [->|Hkd].
+      * left. apply in_or_app. left. apply in_or_app. right. left. reflexivity.
+      * right. right. apply relabel_keep; assumption.
+Qed.
+Lemma cov_create ps rows comp n ch : covC ps rows comp n -> covC ps (rows ++ [(n, ch)]) comp (S n).
+Proof.
+  intros H k Hk Hd. rewrite map_app. cbn [map fst]. destruct (Nat.eq_dec k n) as [->|Hne].
+  - right. left. apply in_or_app. right. left. reflexivity.
+  - destruct (H k ltac:(lia) Hd) as [A|[A|A]]; [left; exact A|right; left; apply in_or_app; left; exact A|right; right; exact A].
+Qed.
+Lemma cov_skip ps rows comp n : ~ (Z.of_nat (dim_of cells n) < dim_max) -> covC ps rows comp n -> covC ps rows comp (S n).
+Proof.
+  intros Hn H k Hk Hd. destruct (Nat.eq_dec k n) as [->|Hne]; [contradiction|]. apply H; [lia|exact Hd].
+Qed.
+Lemma cov_destroy ps rows comp n k0 : (forall r, In r rows -> snd r = p) -> (k0 < n)%nat -> covC ps rows comp n ->
+  covC (add_pair cells m k0 n p ps) (rows_without k0 p rows) comp (S n).
+Proof.
+  intros Hch Hk0 H k Hk Hd. rewrite pair_keys_add by exact Hk0. destruct (Nat.eq_dec k n) as [->|Hne].
+  - left. apply in_or_app. right. left. reflexivity.
+  - destruct (H k ltac:(lia) Hd) as [A|[A|A]].
+    + left. apply in_or_app. left. apply in_or_app. left. exact A.
+    + destruct (Nat.eq_dec k k0) as [->|Hkk].
+      * left. apply in_or_app. left. apply in_or_app. right. left. reflexivity.
+      * right. left. apply in_rows_without; assumption.
+    + right. right. exact A.
+Qed.
+
+Lemma step_cov s n : (n < length cells)%nat -> Inv s n -> covC (s_pairs s) (s_rows s) (s_comp s) n ->
+  let s' := step sw F cells dim_max m s (cell_at n) in covC (s_pairs s') (s_rows s') (s_comp s') (S n).
+Proof.
+  intros Hn HI HC. pose proof HI as [IAs IHs IPs]. pose proof (A_len _ _ _ IAs) as Hlen.
+  destruct (Hvalid n Hn) as [Hfaces Hedge].
+  assert (Hdn : dim_of cells n = c_dim (cell_at n)) by reflexivity.
+  cbv zeta. unfold step. rewrite Hlen.
+  destruct (c_dim (cell_at n)) as [|[|d]] eqn:Ed.
+  - cbn [s_ann s_rows s_comp s_pairs]. apply cov_vertex. exact HC.
+  - specialize (Hedge eq_refl).
+    destruct (c_faces (cell_at n)) as [|f0 [|f1 [|]]] eqn:Efs; try discriminate Hedge.
+    destruct (Hfaces f0 (or_introl eq_refl)) as [Hv0 Hdv0]. destruct (Hfaces f1 (or_intror (or_introl eq_refl))) as [Hu0 Hdu0].
+    assert (Huv : exists u v, nth (if sw then 1 else 0)%nat [f0; f1] 0%nat = v /\ nth (if sw then 0 else 1)%nat [f0; f1] 0%nat = u /\
+                   (u < n)%nat /\ (v < n)%nat /\ S (dim_of cells u) = 1%nat /\ S (dim_of cells v) = 1%nat).
+    { destruct sw; cbn [nth]; [exists f0, f1|exists f1, f0]; repeat split; assumption. }
+    destruct Huv as (u & v & -> & -> & Hu & Hv & Hdu & Hdv).
+    pose proof (coc_spec s n u IHs Hu ltac:(lia)) as Hcu. pose proof (coc_spec s n v IHs Hv ltac:(lia)) as Hcv.
+    set (cu := coc s u) in *. set (cv := coc s v) in *.
+    destruct (H_b _ _ IHs u cu Hcu) as (_ & Hcun & _). destruct (H_b _ _ IHs v cv Hcv) as (_ & Hcvn & _).
+    destruct (cu =? cv)%nat; cbn [negb].
+    + destruct (Z.ltb_spec 1 dim_max); cbn [s_ann s_rows s_comp s_pairs].
+      * apply cov_create. exact HC.
+      * apply cov_skip; [rewrite Hdn; lia|exact HC].
+    + change (f_char F) with p. destruct (val_of cells cu <? val_of cells cv); cbn [s_ann s_rows s_comp s_pairs];
+        apply cov_merge; assumption.
+  - set (a := bann F (s_ann s) (S (S d)) (c_faces (cell_at n)) 0 []).
+    assert (Ha : a = bann F (s_ann s) (dim_of cells n) (c_faces (cell_at n)) 0 []) by (rewrite Hdn; reflexivity).
+    destruct (a_ds_rev a 0) as [|[k x] tl] eqn:Eds.
+    + destruct (Z.ltb_spec (Z.of_nat (S (S d))) dim_max); cbn [s_ann s_rows s_comp s_pairs].
+      * apply cov_create. exact HC.
+      * apply cov_skip; [rewrite Hdn; lia|exact HC].
+    + destruct (A_destroy (s_ann s) (s_rows s) n a k x tl Hn IAs Ha Eds) as (_ & Hk & _ & Hx).
+      destruct (inv_of_spec x Hx) as [_ Hinz].
+      cbn [kill_loop]. change (f_char F) with p. change (f_one F) with 1.
+      destruct (Z.eqb_spec p 1) as [E1|_]; [lia|].
+      change (f_inv F x p) with (inv_of x, p). cbv beta iota.
+      destruct (Z.eqb_spec (inv_of x) 0) as [E0|_]; [contradiction|].
+      rewrite Z.div_same by lia. rewrite kill_loop_one.
+      change (negb (1 =? 1) && (Z.of_nat (S (S d)) <? dim_max)) with false. cbv beta iota.
+      cbn [s_ann s_rows s_comp s_pairs destroy].
+      apply cov_destroy; [apply (A_ch _ _ _ IAs)|apply (A_rows _ _ _ IAs k Hk)|exact HC].
+Qed.
+
+Lemma run_cov pre : forall suf, cells = pre ++ suf ->
+  let s := run sw F cells dim_max m pre in covC (s_pairs s) (s_rows s) (s_comp s) (length pre).
+Proof.
+  unfold run. induction pre as [|c pre IH] using rev_ind; intros suf H.
+  - intros k Hk. cbn in Hk. lia.
+  - rewrite fold_left_app. cbn [fold_left]. rewrite app_length. cbn [length]. rewrite Nat.add_1_r.
+    rewrite <- app_assoc in H. cbn [app] in H.
+    assert (Hc : c = cell_at (length pre)).
+    { unfold cell_at. rewrite H. rewrite app_nth2 by lia. rewrite Nat.sub_diag. reflexivity. }
+    rewrite Hc. apply step_cov.
+    + rewrite H. rewrite app_length. cbn [length]. lia.
+    + apply (run_inv pre (c :: suf)). exact H.
+    + apply (IH (c :: suf)). exact H.
+Qed.
+
+Theorem final_complete s n : covC (s_pairs s) (s_rows s) (s_comp s) n ->
+  forall k, (k < n)%nat -> Z.of_nat (dim_of cells k) < dim_max -> In k (pair_keys (final_pairs s)).
+Proof.
+  intros HC k Hk Hd. unfold final_pairs, essential. rewrite !pair_keys_app.
+  rewrite (pair_keys_inf (fun vc : nat * nat => fst vc) (fun _ => f_char F)).
+  rewrite (pair_keys_inf (fun r : nat * Z => fst r) (fun r => snd r)).
+  destruct (HC k Hk Hd) as [A|[A|A]].
+  - apply in_or_app. left. exact A.
+  - apply in_or_app. right. apply in_or_app. right. exact A.
+  - apply in_or_app. right. apply in_or_app. left. apply in_map_iff. exists (k, k). split; [reflexivity|].
+    apply filter_In. split; [exact A|]. cbn. apply Nat.eqb_refl.
+Qed.
+
 End Zp.
 
 (* ------------------------------------------------------------------ every coefficient structure (Multi_field included) *)
@@ -1084,6 +1215,17 @@ Proof.
   destruct (final_order p cells _ (length cells) run_all_inv _ H) as [A D]. cbn in *. split; assumption.
 Qed.
 
+(* when the minimal length discards nothing, every simplex of dimension below dim_max is in a pair: with
+   [pcoh_paired_once], in exactly one *)
+Theorem pcoh_complete : (forall b d, (b < d)%nat -> length_ok cells m b d = true) ->
+  forall k, (k < length cells)%nat -> Z.of_nat (dim_of cells k) < dim_max_of cells flag ->
+  In k (pair_keys (pcoh_gen sw (zp_ops p) cells flag m)).
+Proof.
+  intros Hok k Hk Hd. unfold pcoh_gen. destruct (Z.leb_spec (dim_max_of cells flag) 0) as [Hle|Hlt]; [lia|].
+  apply (final_complete p cells (dim_max_of cells flag) _ (length cells)); try assumption.
+  apply (run_cov p Hp Hp16 cells (dim_max_of cells flag) m sw Hv Hok cells []). symmetry. apply app_nil_r.
+Qed.
+
 (* the cocycle invariant holds after every prefix of the filtration *)
 Theorem pcoh_cocycles : forall pre suf dim_max, cells = pre ++ suf ->
   let s := run sw (zp_ops p) cells dim_max m pre in
@@ -1233,6 +1375,8 @@ Example rp2_multifield :
     match barcode q rp2_cells 3 0 with
     | Some bc => msame (value_view rp2_cells q (pcoh (mf_ops [2; 3]) rp2_cells true 0)) bc
     | None => false end) [2; 3] = true.
+Proof. vm_compute. reflexivity. Qed.
+Example rp2_no_filter : forallb (fun b => forallb (fun d => negb (b <? d)%nat || length_ok rp2_cells (-1) b d) (seq 0 31)) (seq 0 31) = true.
 Proof. vm_compute. reflexivity. Qed.
 (* the hypotheses of the theorems are satisfiable with live classes present: after the edges, before the triangles *)
 Example rp2_live_rows : length (s_rows (run false (zp_ops 3) rp2_cells 3 0 (firstn 21 rp2_cells))) = 10%nat.
